@@ -361,7 +361,9 @@ def replay(w):
 TECHNIQUE = "Lean 4 proof over a hand-translated model of replace_doctype: every entity that can reach either parser has a plain-text or single-character-reference value; concrete layouts kernel-evaluated; differential correspondence; marker / audit-hook search"
 LEVEL_TEXT = ("Kernel-checked on M-doctype: safeMatch_safe (whatever the SAFE pattern accepts is plain text without & and \" or exactly one &#\\w+; reference), "
               "entities_dict_safe (every entity returned for the loose parser, for EVERY input), rebuilt_only_safe (only SAFE-accepted declarations are re-inserted), "
-              "not_xml_identity, and kernel-evaluated layouts (one_line_layout_contained -- the bypass before the fix: commit --, external_and_parameter_entities_dropped). "
+              "not_xml_identity; on the prolog scanner that decides how far the filter looks (fix: e7e48c9): comment_is_skipped, pi_is_skipped (for EVERY comment / processing-instruction text without '>', the first element is looked for after it -- "
+              "its content, tag-like or not, has no influence), literal_is_skipped (a quoted literal inside a declaration is passed over whatever it contains), firstElemRest_is_a_tag; and kernel-evaluated layouts (one_line_layout_contained, "
+              "comment_markup_layout_contained -- the two bypasses before their fix: commits --, external_and_parameter_entities_dropped). "
               "On the CONSUMER of the table (M-mixin stage 6, the loose back end's handle_entityref / handle_charref, guarded by source fingerprints): eref_expands_once (a reference to a declared entity "
               "appends exactly its replacement text -- which is never tokenised again), eref_text_bounded (one reference appends at most max(name, longest replacement) + 2 characters: linear growth), "
               "cref_text_bounded, ref_events_only_append. Tie: replace_doctype vs model on generated and byte-damaged prologs (version, rewritten bytes, entities); the reference callbacks vs the model on "
